@@ -19,6 +19,7 @@ for n in $names; do rm -f ./*.o; echo "=== $n"; SAN=
  lost) clang $CF -c -Dcondition_variable_wait=hooked_wait $V/runtime/channel.c -o ch.o && clang $CF $H/lost.c $H/realwait.c ch.o $PLAT -o t -lpthread -ldl && ./t ;;
  simbin) SAN=-fsanitize=address; cc_objs $H/simbin.c $D/simcams/simulated.camera.c $D/simcams/3rdParty/pcg-c-basic-0.9/pcg_basic.c $PLAT $C/acquire-device-properties/device/props/components.c; clang++ -g -w -std=gnu++20 $SAN $INC -c $D/simcams/popcount.cpp $D/simcams/imfill.pattern.cpp && clang++ $SAN ./*.o -o t -lpthread -ldl -lm && ./t 2>&1 | head -12 ;;
  simalign) SAN="-mavx2 -O2"; cc_objs $H/simalign.c $D/simcams/simulated.camera.c $D/simcams/3rdParty/pcg-c-basic-0.9/pcg_basic.c $PLAT $C/acquire-device-properties/device/props/components.c; clang++ -g -w -std=gnu++20 $INC -c $D/simcams/popcount.cpp $D/simcams/imfill.pattern.cpp && clang++ ./*.o -o t -lpthread -ldl -lm && ./t 2>&1 | tail -3 ;;
+ noframe) cc_objs $H/noframe_t.c $D/simcams/simulated.camera.c $D/simcams/3rdParty/pcg-c-basic-0.9/pcg_basic.c $PLAT $C/acquire-device-properties/device/props/components.c; clang++ -g -w -std=gnu++20 $INC -c $D/simcams/popcount.cpp $D/simcams/imfill.pattern.cpp && clang++ ./*.o -o t -lpthread -ldl -lm && ./t 2>&1 | tail -3 ;;
  trig) cc_objs $H/trig_t.c $D/simcams/simulated.camera.c $D/simcams/3rdParty/pcg-c-basic-0.9/pcg_basic.c $PLAT $C/acquire-device-properties/device/props/components.c; clang++ -g -w -std=gnu++20 $INC -c $D/simcams/popcount.cpp $D/simcams/imfill.pattern.cpp && clang++ ./*.o -o t -lpthread -ldl -lm && ./t 2>&1 | tail -3 ;;
  dimleak) clang $CF $H/dimleak_t.c $C/acquire-core-logger/logger.c -o t && ./t 2>&1 | tail -3 ;;
  pcopy) clang $CF -fsanitize=address $H/pcopy.c $C/acquire-device-properties/device/props/storage.c $C/acquire-core-logger/logger.c -o t && ./t 2>&1 | head -8 ;;
